@@ -61,6 +61,6 @@ def queries(tier):
     return qs
 
 MANIFEST = {
-    "text": "Bounded symbolic check of the real survey.c (and respond.c): skeletons from sock_init with a harness-driven clock; a receive completes with a response only if the response carries the context's current survey id and the receive was issued before the deadline; receive with no live survey or at/after the deadline gives ESTATE; a waiting receive's expiry is clamped to the survey deadline for every user timeout and yields ETIMEDOUT; a new survey flushes buffered responses and cancels waiting receivers; foreign/stale/short responses are discarded (short ones disconnect).",
+    "text": "Bounded symbolic check of the real survey.c (and respond.c): skeletons from sock_init with a harness-driven clock; a receive completes with a response only if the response carries the context's current survey id and the receive was issued before the deadline; receive with no live survey or at/after the deadline gives ESTATE; a waiting receive's expiry is clamped to the survey deadline for every user timeout and yields ETIMEDOUT; a new survey flushes buffered responses and cancels waiting receivers; foreign/stale/short responses are discarded (short ones disconnect). Also two or more unread responses to the previous survey when the next one is issued (all discarded).",
     "note": "Clock and expiry are driven by the harness under the contract of core/aio.c (fires only after a_expire); aio, message and id-map are verified models.",
 }
